@@ -100,9 +100,6 @@ def gen_program(rng, world, sites, faulty):
         op = {"op": kind, "inst": rng.randrange(ninst)}
         if kind in ("take_close", "take_drop", "take_cycle", "consumer_raises"):
             op["k"] = rng.choice([1, 1, 2, 2, 3, 4])
-        if faulty and sites and rng.random() < 0.1:
-            op["collab"] = {"site": rng.choice(sites), "n": rng.randint(1, 3),
-                            "exc": rng.choice(["ValueError", "KeyError", "RuntimeError", "SimFault"])}
         prog.append(op)
     return prog
 
@@ -557,10 +554,6 @@ def shrink(scn):
                 del c["actors"][i]["program"][j]
                 yield c
         for j, op in enumerate(a["program"]):
-            if "collab" in op:
-                c = copy.deepcopy(scn)
-                del c["actors"][i]["program"][j]["collab"]
-                yield c
             if op.get("k", 0) > 1:
                 c = copy.deepcopy(scn)
                 c["actors"][i]["program"][j]["k"] -= 1
